@@ -5,6 +5,7 @@ From RV Require Import Model.Base Model.GeomPrims Model.ViewBoxSpec Model.ViewBo
 From RV Require Import Gen.Units Model.SvgSize Proofs.SvgSize.
 From Coq Require Import String.
 From RV Require Import Gen.PctAxis Model.ViewportPrims Gen.LeafViewport Proofs.Viewport.
+From RV Require Import Gen.LeafImage Proofs.ImageFit.
 Local Open Scope Q_scope.
 
 Theorem C17_no_skew : forall vb s,
@@ -183,6 +184,43 @@ Theorem C17_none_fills_clip : forall n l st t c r,
   img_lo_x T r == rx c /\ img_hi_x T r == rx c + rw c /\ img_lo_y T r == ry c /\ img_hi_y T r == ry c + rh c.
 Proof. exact none_fills_clip. Qed.
 Print Assumptions C17_none_fills_clip.
+
+(* --- round 4, 2nd pass: <image> placement (image.rs convert_inner); image_ts_gen / image_bbox_gen / image_clip_gen are
+   SOURCE-DERIVED (Gen/LeafImage.v) --- *)
+Theorem C17_image_ts_hand_is_gen : forall actual rect a, image_ts actual rect a = image_ts_gen actual rect a.
+Proof. exact image_ts_hand_is_gen. Qed.
+Print Assumptions C17_image_ts_hand_is_gen.
+
+Theorem C17_image_fit_src : forall actual rect a, pos_size actual -> pos_rect rect ->
+  ts_eq (image_ts_gen actual rect a) (ts_concat (from_translate (rx rect) (ry rect)) (to_transform (image_vb actual a) (r_size rect))).
+Proof. exact image_ts_gen_fit. Qed.
+Print Assumptions C17_image_fit_src.
+
+Theorem C17_image_clip : forall actual rect a, image_clip_gen actual rect a = if ar_slice a then Some rect else None.
+Proof. exact image_clip_spec. Qed.
+Print Assumptions C17_image_clip.
+
+Theorem C17_image_bbox_uses_aligned_ts : forall actual rect a pts,
+  image_bbox_gen actual rect a pts = rect_transform (size_to_rect actual 0 0) (ts_concat pts (image_ts_gen actual rect a)).
+Proof. exact image_bbox_uses_ts. Qed.
+Print Assumptions C17_image_bbox_uses_aligned_ts.
+
+Theorem C17_image_bbox_spec : forall actual rect a, pos_size actual -> pos_rect rect ->
+  let T := to_transform (image_vb actual a) (r_size rect) in
+  let r := vb_rect (image_vb actual a) in
+  exists b, image_bbox_gen actual rect a ts_identity = Some b /\
+            rx b == rx rect + img_lo_x T r /\ rx b + rw b == rx rect + img_hi_x T r /\
+            ry b == ry rect + img_lo_y T r /\ ry b + rh b == ry rect + img_hi_y T r.
+Proof. exact image_bbox_spec. Qed.
+Print Assumptions C17_image_bbox_spec.
+
+(* non-vacuity: a 20x10 picture in a 100x100 box at (5, 7), xMaxYMid meet: drawn 100x50 at (5, 32) *)
+Example C17_image_nv :
+  match image_bbox_gen {| sw := 20; sh := 10 |} {| rx := 5; ry := 7; rw := 100; rh := 100 |} {| ar_align := XMaxYMid; ar_slice := false |} ts_identity with
+  | Some b => Qeq_bool (rx b) 5 && Qeq_bool (ry b) 32 && Qeq_bool (rw b) 100 && Qeq_bool (rh b) 50 = true
+  | None => False
+  end.
+Proof. vm_compute. reflexivity. Qed.
 
 (* non-vacuity: a `use` of width 50% x 40 on a 600x400 viewport referencing a symbol with a viewBox: both the
    transform and the clip rectangle exist, the viewport is 300 x 40 at (10, 20) *)
